@@ -85,9 +85,11 @@ def gen_case(rng, ctx):
             # events whose data Python calls equal although they are different JSON documents (1 / 1.0 / true, 0.0 / -0.0, ...)
             tmpl = rand_event_spec(rng, depth=1)
             evs += [dict(tmpl, ts=tmpl["ts"] + 1000 * j, data=d) for j, d in enumerate(equal_looking_pack(rng))]
-        b = dict(id=bid, type=rng.choice(["t", "currentwindow"]), client="c-" + bid[:3], hostname=rng.choice(["h", "ünï"]), events=evs)
+        # (an empty string is a value too: a cleared label, a host that reports no name)
+        b = dict(id=bid, type=rng.choice(["t", "currentwindow", "currentwindow", ""]), client=rng.choice(["c-" + bid[:3]] * 5 + [""]),
+                 hostname=rng.choice(["h", "ünï", "h", "ünï", ""]), events=evs)
         if rng.random() < 0.6:
-            b["name"] = rng.choice(["nm", "ä name"])
+            b["name"] = rng.choice(["nm", "ä name", ""])
         if rng.random() < 0.6:
             b["data"] = rand_data(rng, 3) or {"k": 1}
         if rng.random() < 0.5:
